@@ -930,7 +930,22 @@ func (g *JSGen) Stmt(depth int) string {
 				// it ends up (arrow bodies, conditionals, sequences, nested assignments)
 				n := g.fresh()
 				var init string
-				switch r.Intn(5) {
+				switch r.Intn(7) {
+				case 5, 6:
+					// `in` under every operator that hands the for-init restriction down to an operand
+					in := "(\"x\" in " + g.objectLit(depth-1) + ")"
+					init = []string{
+						"!" + in, in + " || 0", "0 || " + in, in + " && 1", "1 && " + in, in + " ?? 1", "null ?? " + in,
+						in + " ? 1 : 2", "1 ? 2 : " + in, "0 ? 1 : " + in, "(" + in + ", 1)", "(1, " + in + ")", "void " + in, "-" + in, "typeof " + in,
+						"[...(function*() { var q = yield " + in + "; })()]",
+						"[...(function*() { for (var q = yield " + in + ", i = 0; i < 1; i++) ; })()]",
+						"[...(function*() { for (var q = 1 ? yield " + in + " : 0, i = 0; i < 1; i++) ; })()]",
+						"[...(function*() { for (var q = [yield " + in + "], i = 0; i < 1; i++) ; })()]",
+						"[" + in + "]", "{ k: " + in + " }", "`${" + in + "}`", "(() => {})(" + in + ")", "new (class { constructor(v) { this.v = v; } })(" + in + ").v",
+					}[r.Intn(24)]
+					if r.Bool() {
+						init = "(k) => " + "(" + init + ")"
+					}
 				case 0:
 					init = "(k) => (k in " + g.objectLit(depth-1) + ")"
 				case 1:
